@@ -267,8 +267,8 @@ impl Run {
             }
         }
         let replay_mode = self.ctx.replay.is_some();
-        let replay_dir = std::env::var("VERIF_REPLAY_DIR").unwrap_or_else(|_| "/verif/replays".to_string());
-        let evidence_dir = std::env::var("VERIF_EVIDENCE_DIR").unwrap_or_else(|_| "/verif/evidence".to_string());
+        let replay_dir = std::env::var("VERIF_REPLAY_DIR").unwrap_or_else(|_| format!("{}/replays", verif_root()));
+        let evidence_dir = std::env::var("VERIF_EVIDENCE_DIR").unwrap_or_else(|_| format!("{}/evidence", verif_root()));
         let _ = std::fs::create_dir_all(&replay_dir);
         let mut out_lines = vec![];
         for (sig, r) in &listed {
@@ -396,9 +396,13 @@ pub fn fnv(s: &str) -> u64 {
     h
 }
 
+/// root of the verification tree (the directory holding ./check); VERIF_ROOT is set by ./check
+pub fn verif_root() -> String {
+    std::env::var("VERIF_ROOT").unwrap_or_else(|_| "/verif".to_string())
+}
 /// signatures listed as known findings for this property in /verif/known_findings.json
 pub fn load_known(prop: &str) -> Vec<String> {
-    let txt = match std::fs::read_to_string("/verif/known_findings.json") {
+    let txt = match std::fs::read_to_string(format!("{}/known_findings.json", verif_root())) {
         Ok(t) => t,
         Err(_) => return vec![],
     };
